@@ -207,11 +207,12 @@ def node_weights(n):
 def node_weights_wide(draw, n):
     """Positive weights of any magnitude and precision: the dyadic k/8 grid,
     k/7 (not exactly representable, neither in float32), and either of them
-    times a common factor 1e-6 .. 1e6 (areas as fractions of the sphere,
+    times a common factor 1e-9 .. 1e9 (areas as fractions of the sphere,
     populations ...)."""
     base = draw(st.lists(st.integers(1, 40), min_size=n, max_size=n))
     den = draw(st.sampled_from([8.0, 8.0, 7.0]))
-    scale = draw(st.sampled_from([1.0, 1.0, 1.0, 1e-6, 1e-3, 1e3, 1e6]))
+    scale = draw(st.sampled_from([1.0, 1.0, 1.0, 1e-9, 1e-6, 1e-3, 1e3, 1e6,
+                                  1e9]))
     return [k / den * scale for k in base]
 
 
